@@ -523,6 +523,35 @@ BuildCoinbase(s, w, a) ==
   IN [steps |-> IF reuse THEN <<s2>> ELSE <<s1, s2>>, res |-> "ok", key |-> key]
 
 \* ---------------------------------------------------------------------
+\* BuildOutput — owner::build_output.  Hands out the next key of the ACTIVE
+\* account and builds an output with it; nothing else is stored (the caller
+\* owns the output).  Steps: K
+\* ---------------------------------------------------------------------
+BuildOutput(s, w) ==
+  [steps |-> <<BumpChild(s, w)>>, res |-> "ok", key |-> NextChildKey(s, w)]
+
+\* ---------------------------------------------------------------------
+\* MwixReq — owner::create_mwixnet_req.  args: [k (key of the record whose
+\*  commitment is named), lock]
+\*  The commitment is looked up among the non-Spent records of the ACTIVE
+\*  account (whatever their status); a new output is built for the swapped
+\*  value (K); with lock the record, re-read by its plain key (a record restored
+\*  by a scan is keyed with its MMR index and is not found), is marked Locked in
+\*  a batch of its own - a reservation WITHOUT a log entry (second reservation
+\*  kind, released only by a scan that deletes unconfirmed transactions).
+\*  Steps: K . [B(record Locked)]
+\* ---------------------------------------------------------------------
+MwixReq(s, w, a) ==
+  LET wr == s.w[w]
+      found == a.k \in DOMAIN wr.outs /\ wr.outs[a.k].acct = wr.active /\ wr.outs[a.k].st # "Spent"
+      s1 == BumpChild(s, w)
+      s2 == [s1 EXCEPT !.w[w].outs[a.k].st = "Locked"] IN
+  IF ~found THEN [steps |-> <<>>, res |-> "notfound", key |-> ""]
+  ELSE IF ~a.lock THEN [steps |-> <<s1>>, res |-> "ok", key |-> NextChildKey(s, w)]
+  ELSE IF wr.outs[a.k].m THEN [steps |-> <<s1>>, res |-> "norecord", key |-> NextChildKey(s, w)]
+  ELSE [steps |-> <<s1, s2>>, res |-> "ok", key |-> NextChildKey(s, w)]
+
+\* ---------------------------------------------------------------------
 \* Accounts
 \* ---------------------------------------------------------------------
 \* a.label: new label; a.name: the account path it gets (max existing + 1, chosen by the caller)
